@@ -53,15 +53,52 @@ def natural_runs(pl, res, reps, tag):
     return outs
 
 
+class Group:
+    """the behaviours of one input set, kept compactly (thorough tiers replay millions of them): the distinct
+    outcome signatures with their counts, the first behaviour, and the first one that differs from it"""
+    __slots__ = ("sigs", "first", "alt", "n", "scheds")
+
+    def __init__(self):
+        self.sigs = collections.Counter()
+        self.first = None
+        self.alt = None
+        self.n = 0
+        self.scheds = []
+
+    def add(self, case, obs, kfc):
+        sig = outcome_sig(obs)
+        if self.first is not None and (self.alt is not None or sig == self.first[3]):
+            self.sigs[sig] += 1
+            self.n += 1
+            if len(self.scheds) < 6:
+                self.scheds.append(case["sched"])
+            return
+        # kept for the report: without the registry and the item projections
+        obs = {k: ([{"rel": f["rel"], "hash": f["hash"]} for f in v] if k == "files" else v)
+               for k, v in obs.items() if k not in ("reg", "events")}
+        self.sigs[sig] += 1
+        self.n += 1
+        if len(self.scheds) < 6:
+            self.scheds.append(case["sched"])
+        if self.first is None:
+            self.first = (case, obs, kfc, sig)
+        elif self.alt is None and sig != self.first[3]:
+            self.alt = (case, obs, kfc, sig)
+
+
+def new_groups():
+    return collections.defaultdict(Group)
+
+
 def c09_groups(pl, res, groups, tier, cov, tag):
     """all behaviours of one input (imposed schedules, module orders, natural hash order in fresh
     processes) must agree on Ok/Err and on the bytes of every output file"""
     n_checked = 0
     nat = natural_runs(pl, res, 2 if tier == "quick" else 4, tag)
-    for key, lst in groups.items():
-        sigs = collections.Counter(outcome_sig(o) for _, o, _ in lst)
-        case0, obs0, kfc = lst[0]
-        n_checked += len(lst)
+    for key, g in groups.items():
+        sigs = collections.Counter(g.sigs)
+        case0, obs0, kfc, _ = g.first
+        n_checked += g.n
         nat_diff = None
         for run in nat:
             o = run.get(case0["id"])
@@ -72,17 +109,16 @@ def c09_groups(pl, res, groups, tier, cov, tag):
                 n_checked += 1
         if len(sigs) > 1:
             kinds = sorted({s[0] for s in sigs})
-            a = lst[0]
-            b = next((x for x in lst if outcome_sig(x[1]) != outcome_sig(a[1])), None)
-            detail = {"schedules": len(lst), "distinct_outcomes": len(sigs), "kinds": kinds,
-                      "schedule_a": a[0]["sched"], "outcome_a": a[1]["outcome"],
+            b = g.alt
+            detail = {"schedules": g.n, "distinct_outcomes": len(sigs), "kinds": kinds,
+                      "schedule_a": case0["sched"], "outcome_a": obs0["outcome"],
                       "schedule_b": b[0]["sched"] if b else "natural hash order in a fresh process",
                       "outcome_b": b[1]["outcome"] if b else (nat_diff or {}).get("outcome")}
-            res.violation(f"the same input gives {len(sigs)} different results over {len(lst)} imposed schedules and "
+            res.violation(f"the same input gives {len(sigs)} different results over {g.n} imposed schedules and "
                           f"{len(nat)} natural-order process runs ({'Ok and Err' if len(kinds) > 1 else 'different output bytes'})",
-                          payload(a[0], a[1], detail), kfc)
-        if len(res.samples) < 5 and len(lst) > 2:
-            res.sample({"input": case0["input"], "schedules_imposed": [c["sched"] for c, _, _ in lst][:6],
+                          payload(case0, obs0, detail), kfc)
+        if len(res.samples) < 5 and g.n > 2:
+            res.sample({"input": case0["input"], "schedules_imposed": g.scheds,
                         "result": obs0["outcome"], "files": obs0.get("files") and [f["rel"] for f in obs0["files"]]})
     cov["inputs_" + tag] = len(groups)
     cov["natural_order_process_runs"] = len(nat)
@@ -178,7 +214,7 @@ def run_graph(pid, tier):
     pl = Pipeline(tier, module="MC_Graph", cfgs=CFG, name="graph",
                   replay_flags=["--emit-dir", os.path.join(WORK, "run", f"graph-{tier}", "emit"), "--sched", "--project"])
     cov = pl.base_coverage()
-    groups = collections.defaultdict(list)
+    groups = new_groups()
     n_checked = n_model = sched_miss = 0
     for case, obs in pl.pairs():
         cid = case["id"]
@@ -195,7 +231,7 @@ def run_graph(pid, tier):
         res.add_drift(d, cid)
         crashed = obs["outcome"] in ("panic", "hang", "abort")
         if pid == "C09":
-            groups[input_key(case)].append((case, obs, kf_class))
+            groups[input_key(case)].add(case, obs, kf_class)
             continue
         # ---------------- C10
         n_checked += 1
@@ -246,9 +282,9 @@ def run_graph(pid, tier):
         # a second input family: ambiguous names (several definitions of one short name in scope)
         pl2 = Pipeline(tier, module="MC_Scope", cfgs={"quick": ["MC_Scope_q2.cfg", "MC_Scope_q3.cfg"], "thorough": ["MC_Scope_q1.cfg", "MC_Scope_q2.cfg"]},
                        name="graph2", replay_flags=["--emit-dir", os.path.join(WORK, "run", f"graph2-{tier}", "emit"), "--sched"])
-        groups2 = collections.defaultdict(list)
+        groups2 = new_groups()
         for case, obs in pl2.pairs():
-            groups2[input_key(case)].append((case, obs, None))
+            groups2[input_key(case)].add(case, obs, None)
         n_checked += c09_groups(pl2, res, groups2, tier, cov, "scope")
         bc = pl2.base_coverage()
         for k in ("states", "transitions", "traces_validated_against_impl"):
